@@ -340,6 +340,36 @@ void free_tokens(Token *tokens, int count) {
     free(tokens);
 }
 
+/* The characters a string literal denotes.  A string token keeps the literal as it is
+ * written (the transpiler pastes it into the generated C, where the C compiler reads the
+ * escapes); an engine that uses the literal itself decodes the escapes a character
+ * literal knows (\n \t \r \0 \\ \' \") with this function.  Any other escape is kept
+ * as written.  Returns a malloc'd string (NULL when out of memory). */
+char *string_literal_value(const char *literal) {
+    if (!literal) return NULL;
+    char *value = malloc(strlen(literal) + 1);
+    if (!value) return NULL;
+    size_t n = 0;
+    for (size_t i = 0; literal[i] != '\0'; i++) {
+        char c = literal[i];
+        if (c == '\\' && literal[i + 1] != '\0') {
+            switch (literal[i + 1]) {
+                case 'n': c = '\n'; i++; break;
+                case 't': c = '\t'; i++; break;
+                case 'r': c = '\r'; i++; break;
+                case '0': c = '\0'; i++; break;
+                case '\\': c = '\\'; i++; break;
+                case '\'': c = '\''; i++; break;
+                case '"': c = '"'; i++; break;
+                default: break;
+            }
+        }
+        value[n++] = c;
+    }
+    value[n] = '\0';
+    return value;
+}
+
 /* Get token type name for debugging */
 const char *token_type_name(TokenType type) {
     switch (type) {
